@@ -14,8 +14,86 @@
 -/
 import YtkProofs.Codec
 import YtkProofs.CodecI
+import YtkProofs.Decisions
 
 namespace Ytk.C01
+
+/-! ## decision tables regenerated from the source (extract/tables.go) -/
+section DecisionTables
+open Ytk.TableT Ytk.FileCodec
+
+/-- decoder and encoder of one suffix belong to the same codec of the model -/
+def suffixConsistent (r : Row) : Bool :=
+  match ofSuffix r.key with
+  | some f => r.target == f.decoder && lookupD Generated.fileEncoders Generated.fileEncodersDefault r.key == f.encoder
+  | none => false
+
+/-- (i) The two `reflect.Kind` switches of dom/codec.go (decodeContainerFn for map entries, decodeListFn
+    for list items) as regenerated from the source decide, for EVERY reflect.Kind of Go, what the model's
+    decoder builds for a value of that kind (`decodeShape k`: the node kind of `decodeNode` on the model's
+    representation of such a value: `.obj` for maps, `.arr` for slices and arrays, `.sc` otherwise); nil is
+    a leaf on both sides; and `decodeNode` never builds anything but the node kind of its argument. -/
+theorem decode_kinds_table_matches_model :
+    (∀ k ∈ reflectKinds,
+      lookupD Generated.decodeContainerKinds Generated.decodeContainerKindsDefault k = (decodeShape k).goName ∧
+      lookupD Generated.decodeListKinds Generated.decodeListKindsDefault k = (decodeShape k).goName) ∧
+    Generated.decodeContainerKindsNil = (decodeNode (.sc Scalar.null)).shape.goName ∧
+    Generated.decodeListKindsNil = (decodeNode (.sc Scalar.null)).shape.goName ∧
+    (∀ v, (decodeNode v).shape = v.shape) :=
+  ⟨by decide +kernel, by decide +kernel, by decide +kernel, decodeNode_shape⟩
+
+/-- (ii) every kind of the generic-value domain is handled and nothing is skipped: a map becomes a
+    container, a slice AND an array a list, every scalar kind a leaf, nil a leaf — for map entries and for
+    list items alike — and no reflect.Kind whatsoever falls out of the switch (`skip`). -/
+theorem decode_kinds_table_rule :
+    (∀ t ∈ [(Generated.decodeContainerKinds, Generated.decodeContainerKindsDefault, Generated.decodeContainerKindsNil),
+            (Generated.decodeListKinds, Generated.decodeListKindsDefault, Generated.decodeListKindsNil)],
+      lookupD t.1 t.2.1 "Map" = "container" ∧ lookupD t.1 t.2.1 "Slice" = "list" ∧
+      lookupD t.1 t.2.1 "Array" = "list" ∧ (∀ k ∈ scalarKinds, lookupD t.1 t.2.1 k = "leaf") ∧
+      t.2.2 = "leaf" ∧
+      (∀ k ∈ reflectKinds, lookupD t.1 t.2.1 k ∈ ["container", "list", "leaf"])) ∧
+    pairs Generated.decodeContainerKinds = pairs Generated.decodeListKinds ∧
+    Generated.decodeContainerKindsDefault = Generated.decodeListKindsDefault := by
+  decide +kernel
+
+/-- (i) The suffix switches of common.DefaultFileDecoderProvider / DefaultFileEncoderProvider as
+    regenerated from common/common.go ARE the model's suffix table: same suffixes, for each the decoder /
+    encoder function of the model's codec for that suffix, nil for anything else. -/
+theorem file_codec_table_matches_model :
+    pairs Generated.fileDecoders = suffixTable.map (fun p => (p.1, p.2.decoder)) ∧
+    pairs Generated.fileEncoders = suffixTable.map (fun p => (p.1, p.2.encoder)) ∧
+    Generated.fileDecodersDefault = "nil" ∧ Generated.fileEncodersDefault = "nil" ∧
+    (∀ r ∈ Generated.fileDecoders, decoderOf r.key = r.target) ∧
+    (∀ r ∈ Generated.fileEncoders, encoderOf r.key = r.target) := by
+  decide +kernel
+
+/-- (ii) `.yaml` and `.yml` select the YAML codec of package dom, `.json` the JSON codec — the default
+    codecs the property is stated for —, an unknown suffix selects nothing, and what the encoder provider
+    writes for a suffix the decoder provider reads with the same codec. -/
+theorem file_codec_table_rule :
+    lookupD Generated.fileDecoders Generated.fileDecodersDefault ".yaml" = "dom.DefaultYamlDecoder" ∧
+    lookupD Generated.fileDecoders Generated.fileDecodersDefault ".yml" = "dom.DefaultYamlDecoder" ∧
+    lookupD Generated.fileDecoders Generated.fileDecodersDefault ".json" = "dom.DefaultJsonDecoder" ∧
+    lookupD Generated.fileEncoders Generated.fileEncodersDefault ".yaml" = "dom.DefaultYamlEncoder" ∧
+    lookupD Generated.fileEncoders Generated.fileEncodersDefault ".yml" = "dom.DefaultYamlEncoder" ∧
+    lookupD Generated.fileEncoders Generated.fileEncodersDefault ".json" = "dom.DefaultJsonEncoder" ∧
+    lookupD Generated.fileDecoders Generated.fileDecodersDefault ".txt" = "nil" ∧
+    lookupD Generated.fileEncoders Generated.fileEncodersDefault "" = "nil" ∧
+    keys Generated.fileDecoders = keys Generated.fileEncoders ∧
+    (∀ r ∈ Generated.fileDecoders, suffixConsistent r = true) := by
+  decide +kernel
+
+/-- (iii) the tables are not empty and their keys are distinct -/
+theorem nonvacuous_decode_tables :
+    Generated.decodeContainerKinds ≠ [] ∧ (keys Generated.decodeContainerKinds).Nodup ∧
+    Generated.decodeListKinds ≠ [] ∧ (keys Generated.decodeListKinds).Nodup ∧
+    (∀ k ∈ keys Generated.decodeContainerKinds ++ keys Generated.decodeListKinds, k ∈ reflectKinds) ∧
+    reflectKinds.Nodup ∧ reflectKinds.length = 27 ∧ (∀ k ∈ scalarKinds, k ∈ reflectKinds) ∧
+    Generated.fileDecoders.length = 4 ∧ (keys Generated.fileDecoders).Nodup ∧
+    Generated.fileEncoders.length = 4 ∧ (keys Generated.fileEncoders).Nodup := by
+  decide +kernel
+
+end DecisionTables
 
 /-- AsMap(FromMap(m)) == m : no entry, list item or null is dropped, added, reordered or retyped. -/
 theorem encode_decode_partial (v : Val) (hw : v.WF) (hn : Val.noIdxKeys v = true) :
